@@ -7,7 +7,7 @@ E4 (environment answers) on EncoderSelector.get_best_assignment_manager:
     pair of deviations, plus the extreme scripts; candidate rejections (InvalidPatternEncoder / DetectedHighImpRatio) are
     injected at every candidate position the same way;
   * cache histories: cold, warm (second call), written by another process with another hash seed, matrix cache warm +
-    selection cache cold, and the reverse;
+    selection cache cold, and the reverse, matrix cache first written by the enumeration of a single existence pattern;
   * oracle: a manager is returned, it satisfies the C10 laws (vf.props.c10.check_manager), <= 1 matrix in every pattern
     => no variables; result through any cache history == cold result;
   * cache keys: over ALL pairs of a large enumerated family of settings, equal key => equal canonical settings.
@@ -24,19 +24,19 @@ from vf import refmodel, env
 from vf.props import c09, c10
 
 LEVEL = 'fault_enumeration'
-RULE = ('case = one connector setting: all limiter scripts up to the deviation bound x 5 cache histories (each a full run of the '
+RULE = ('case = one connector setting: all limiter scripts up to the deviation bound x 6 cache histories (each a full run of the '
         'real selector) | one shard of the cache-key family; non-trivial = setting with a pattern that has >= 2 valid matrices; '
         'distinct by construction')
 ASSUMPTIONS = ['the scripted limiter runs the function inline or raises instead of it: wall-clock behaviour itself is C19',
                'library versions of the numeric stack cannot be varied offline: the installed stack (numpy 1.26 / pandas 3 / numba 0.6x) only',
                'if every candidate of a stage times out the selector may only fail with its explicit RuntimeError']
 CHUNK = 1
-REQUIRED_FEATURES = {'*': ['script_single_dev', 'cache_other_process', 'degenerate_one', 'degenerate_zero', 'key_family']}
+REQUIRED_FEATURES = {'*': ['script_single_dev', 'cache_other_process', 'degenerate_one', 'degenerate_zero', 'key_family', 'partial_first']}
 _TIER = ['quick']
 
 
 def scope_text(tier):
-    return ('%s settings x limiter scripts (0, every single%s deviation, extremes) x 5 cache histories; cache keys over a family '
+    return ('%s settings x limiter scripts (0, every single%s deviation, extremes) x 6 cache histories; cache keys over a family '
             'of ~10^5 settings' % (('~70', '') if tier == 'quick' else ('~400', ' and every pair of')))
 
 
@@ -212,6 +212,18 @@ def run_selector_case(case, res):
         clear_cache('matrix_cache')                             # selection cache warm, matrix cache cold
         mgr, lim, _, _ = select(case)
         compare('selection-warm-matrix-cold', mgr)
+        # matrix cache first written by a PARTIAL use of the same settings: enumeration of one existence pattern only
+        if case['ex'] != 'none' and len(existences) >= 2:
+            from adsg_core.optimization.assign_enc.matrix import AggregateAssignmentMatrixGenerator
+            for k_pat in sorted({0, len(existences)-1}):
+                clear_cache()
+                st_, _, exs_ = make_settings(case)
+                gen = AggregateAssignmentMatrixGenerator(st_)
+                list(gen.iter_matrices(existence=exs_[k_pat]))
+                gen.count_all_matrices()
+                feats['partial_first'] = feats.get('partial_first', 0) + 1
+                mgr, lim, _, _ = select(case)
+                compare('matrix-cache-written-by-partial-enumeration-%d' % k_pat, mgr)
         # written by another process with another hash seed
         clear_cache()
         envp = os.environ.copy()
